@@ -1105,3 +1105,124 @@ Proof.
   - change (lst g') with (apply_m (lst g1) (MErase c)). change (mlog g') with (mlog g1 ++ [MErase c]).
     rewrite VM, VL, fold_apply_app, <- H10. reflexivity.
 Qed.
+
+Lemma step_E_s2_some g it c nx0 pv x p' :
+  GS g (E_s2 it c nx0 pv (Some x)) -> plain p' = true ->
+  let g' := setn g x (n_back (gnode g x) pv) in
+  GS g' p' /\ mono g g'.
+Proof.
+  intros G Hp' g'. pose proof (gs_back _ _ G) as Hb. cbn [back_ok] in Hb.
+  destruct Hb as (Hic & Hdc & Hcl & l1 & l2 & El & Hpv & Hnx & B1 & B2 & Ht).
+  symmetry in Hnx. destruct (hd_opt_In _ _ Hnx) as [r2 E2]. subst l2.
+  assert (Hix : isnode g x = true) by (apply (gs_nodes _ _ G); rewrite El; apply in_or_app; right; left; reflexivity).
+  pose proof (sameN_set_back g x pv Hix) as S. fold g' in S.
+  destruct (set_back_views g x pv Hix) as (_ & EB & _ & _). fold g' in EB.
+  pose proof (gs_nodup _ _ G) as ND. rewrite El in ND. destruct (NoDup_mid _ _ _ ND) as (Hx1 & Hx2 & _).
+  split; [|apply mono_sameN; exact S].
+  apply (GS_plain _ (E_alloc it c nx0) p' eq_refl Hp').
+  eapply GS_sameN; [exact S|exact G|intros k E; discriminate|intros k E; discriminate| |exact I].
+  cbn [back_ok]. rewrite (sn_lst _ _ S), El. split.
+  - apply bwdl_app. split.
+    + eapply bwdl_ext; [|exact B1]. intros a Ha. rewrite EB. destruct (Nat.eqb_spec a x) as [->|]; [contradiction|reflexivity].
+    + cbn [bwdl] in *. destruct B2 as [_ B2]. split.
+      * rewrite EB, Nat.eqb_refl. unfold last_or. rewrite <- Hpv. destruct pv; reflexivity.
+      * eapply bwdl_ext; [|exact B2]. intros a Ha. rewrite EB. destruct (Nat.eqb_spec a x) as [->|]; [contradiction|reflexivity].
+  - destruct (nviews_setn g x (n_back (gnode g x) pv) Hix) as [_ _ _ _ T _ _ _ _ _]. fold g' in T. rewrite T, Ht.
+    rewrite last_opt_app2 by discriminate. unfold last_or.
+    destruct (last_opt (x :: r2)) eqn:E; [reflexivity|apply last_opt_none in E; discriminate].
+Qed.
+
+Lemma step_E_s2_none g it c nx0 pv p' :
+  GS g (E_s2 it c nx0 pv None) -> plain p' = true ->
+  GS (with_tail g pv) p' /\ mono g (with_tail g pv).
+Proof.
+  intros G Hp'. pose proof (gs_back _ _ G) as Hb. cbn [back_ok] in Hb.
+  destruct Hb as (Hic & Hdc & Hcl & l1 & l2 & El & Hpv & Hnx & B1 & B2 & Ht).
+  destruct l2; [|discriminate]. rewrite app_nil_r in El.
+  split; [|apply mono_sameN, sameN_tail].
+  apply (GS_plain _ (E_alloc it c nx0) p' eq_refl Hp').
+  eapply GS_sameN; [apply sameN_tail|exact G|intros k E; discriminate|intros k E; discriminate| |exact I].
+  cbn [back_ok]. change (lst (with_tail g pv)) with (lst g). rewrite El. split; [eapply bwdl_ext; [|exact B1]; reflexivity|exact Hpv].
+Qed.
+
+(* ---------- assembling the invariant after a step ---------- *)
+Lemma hpc_other g g' ls t l l' :
+  InvA g ls -> nth_error ls t = Some l -> holds (at_ l) = false -> wmtx g' = wmtx g ->
+  hpc g' (upd ls t l') = hpc g ls.
+Proof.
+  intros I Hl Hh Hm. unfold hpc. rewrite Hm. destruct (wmtx g) as [a|] eqn:E; [|reflexivity].
+  rewrite (pcof_upd _ _ _ _ _ Hl). destruct (Nat.eqb_spec a t) as [->|]; [|reflexivity].
+  pose proof (a_held _ _ I t E) as H. rewrite (pcof_at _ _ _ Hl) in H. congruence.
+Qed.
+Lemma hpc_self g ls t l l' : nth_error ls t = Some l -> wmtx g = Some t -> hpc g (upd ls t l') = at_ l'.
+Proof. intros Hl Hm. unfold hpc. rewrite Hm, (pcof_upd _ _ _ _ _ Hl), Nat.eqb_refl. reflexivity. Qed.
+Lemma hpc_holder g ls t l : InvA g ls -> nth_error ls t = Some l -> holds (at_ l) = true -> hpc g ls = at_ l /\ wmtx g = Some t.
+Proof.
+  intros I Hl Hh. assert (wmtx g = Some t) as E by (apply (a_own _ _ I); rewrite (pcof_at _ _ _ Hl); exact Hh).
+  split; [|exact E]. unfold hpc. rewrite E. apply pcof_at. exact Hl.
+Qed.
+
+Lemma InvA_nonholder g g' ls t l l' :
+  InvA g ls -> nth_error ls t = Some l ->
+  holds (at_ l) = false -> holds (at_ l') = false -> wmtx g' = wmtx g -> sameA g g' -> thr_ok g' l' ->
+  InvA g' (upd ls t l').
+Proof.
+  intros I Hl Hh Hh' Hm S Ht. constructor.
+  - intros u. rewrite (pcof_upd _ _ _ _ _ Hl), Hm. destruct (Nat.eqb u t); [congruence|apply (a_own _ _ I)].
+  - intros a Ha. rewrite Hm in Ha. rewrite (pcof_upd _ _ _ _ _ Hl). pose proof (a_held _ _ I a Ha) as H.
+    destruct (Nat.eqb_spec a t) as [->|]; [|exact H]. rewrite (pcof_at _ _ _ Hl) in H. congruence.
+  - rewrite (hpc_other g g' ls t l l' I Hl Hh Hm). eapply GS_frame; [exact S|apply (a_gs _ _ I)].
+  - intros u lu Hu. apply nth_upd in Hu. destruct Hu as [(_ & -> & _)|(_ & Hu)]; [exact Ht|].
+    eapply thr_ok_sameA; [exact S|apply (a_thr _ _ I u); exact Hu].
+Qed.
+
+Lemma InvA_lock g ls t l l' :
+  InvA g ls -> nth_error ls t = Some l ->
+  holds (at_ l) = false -> holds (at_ l') = true -> plain (at_ l') = true -> wmtx g = None ->
+  thr_ok g l' -> InvA (with_mtx g (Some t)) (upd ls t l').
+Proof.
+  intros I Hl Hh Hh' Hp Hm Ht.
+  assert (S : sameA g (with_mtx g (Some t))) by (apply sameA_mtx, sameA_refl).
+  constructor.
+  - intros u. rewrite (pcof_upd _ _ _ _ _ Hl). destruct (Nat.eqb_spec u t) as [->|]; [reflexivity|].
+    intros H. apply (a_own _ _ I) in H. congruence.
+  - intros a Ha. cbn in Ha. inversion Ha; subst a. rewrite (pcof_upd _ _ _ _ _ Hl), Nat.eqb_refl. exact Hh'.
+  - rewrite (hpc_self _ _ _ _ _ Hl) by reflexivity. eapply GS_frame; [exact S|].
+    apply (GS_plain _ Idle); [reflexivity|exact Hp|]. pose proof (a_gs _ _ I) as G. unfold hpc in G. rewrite Hm in G. exact G.
+  - intros u lu Hu. apply nth_upd in Hu. destruct Hu as [(_ & -> & _)|(_ & Hu)].
+    + eapply thr_ok_sameA; [exact S|exact Ht].
+    + eapply thr_ok_sameA; [exact S|apply (a_thr _ _ I u); exact Hu].
+Qed.
+
+Lemma InvA_holder g g' ls t l l' :
+  InvA g ls -> nth_error ls t = Some l ->
+  holds (at_ l) = true -> holds (at_ l') = true -> wmtx g' = wmtx g ->
+  GS g' (at_ l') -> mono g g' -> thr_ok g' l' ->
+  InvA g' (upd ls t l').
+Proof.
+  intros I Hl Hh Hh' Hm G M Ht. destruct (hpc_holder _ _ _ _ I Hl Hh) as [Ehp Emt].
+  constructor.
+  - intros u. rewrite (pcof_upd _ _ _ _ _ Hl), Hm. destruct (Nat.eqb_spec u t) as [->|]; [intros _; exact Emt|apply (a_own _ _ I)].
+  - intros a Ha. rewrite Hm, Emt in Ha. inversion Ha; subst a. rewrite (pcof_upd _ _ _ _ _ Hl), Nat.eqb_refl. exact Hh'.
+  - rewrite (hpc_self _ _ _ _ _ Hl) by congruence. exact G.
+  - intros u lu Hu. apply nth_upd in Hu. destruct Hu as [(_ & -> & _)|(_ & Hu)]; [exact Ht|].
+    eapply thr_ok_mono; [exact M|apply (a_thr _ _ I u); exact Hu].
+Qed.
+
+Lemma InvA_unlock g ls t l l' :
+  InvA g ls -> nth_error ls t = Some l ->
+  holds (at_ l) = true -> plain (at_ l) = true -> holds (at_ l') = false ->
+  thr_ok g l' -> InvA (with_mtx g None) (upd ls t l').
+Proof.
+  intros I Hl Hh Hp Hh' Ht. destruct (hpc_holder _ _ _ _ I Hl Hh) as [Ehp Emt].
+  assert (S : sameA g (with_mtx g None)) by (apply sameA_mtx, sameA_refl).
+  constructor.
+  - intros u. rewrite (pcof_upd _ _ _ _ _ Hl). destruct (Nat.eqb_spec u t) as [->|Hne]; [congruence|].
+    intros H. apply (a_own _ _ I) in H. congruence.
+  - intros a Ha. discriminate.
+  - unfold hpc. cbn [wmtx with_mtx]. eapply GS_frame; [exact S|].
+    apply (GS_plain _ (at_ l)); [exact Hp|reflexivity|]. rewrite <- Ehp. apply (a_gs _ _ I).
+  - intros u lu Hu. apply nth_upd in Hu. destruct Hu as [(_ & -> & _)|(_ & Hu)].
+    + eapply thr_ok_sameA; [exact S|exact Ht].
+    + eapply thr_ok_sameA; [exact S|apply (a_thr _ _ I u); exact Hu].
+Qed.
